@@ -299,9 +299,11 @@ LagrangeInterp ==
         \A C \in KSub(Members, t) : SumF([i \in C |-> (Lam(i, C) * Sk(i)) % Q], C) = Y
 
 \* (2) secrecy as a counting statement: whatever t-1 members see, every value of f(0) is explained by exactly one
-\* polynomial of degree < t, so their shares carry no information about the secret
+\* polynomial of degree < t, so their shares carry no information about the secret.  (Evaluated once per group, on the
+\* state after the first block without a request, so that TLC's workers share the work: initial states are generated
+\* by a single thread.  The MC facets with SecrecyOn have MaxH >= 2.)
 Secrecy ==
-    (SecrecyOn /\ st = "none") =>
+    (SecrecyOn /\ st = "none" /\ h = 2) =>
         \A A \in KSub(Members, t - 1) : \A s \in Zq :
             Cardinality({hi \in [2..t -> Zq] :
                            LET g == [k \in 1..t |-> IF k = 1 THEN s ELSE hi[k]]
